@@ -3,6 +3,7 @@
 -/
 import Driver.Ops
 import DecimalModel.SqrtLit
+import Driver.OpsRadix
 
 namespace Driver
 open Decimal
@@ -74,7 +75,8 @@ def setIntOp (env : Array Dec) (zs sgn ws : String) : Step :=
     let z' := setInt z v
     let p := if z.prec == 0 then umax (if ndigits M > MaxPrec then MaxPrec else ndigits M) DefaultPrec else z.prec
     let r := Spec.roundSV z.mode p (svOfNat neg M 0)
-    { env := env.set! zi z', spec := stdSpec env zi (some r) p z.mode, tags := "setint" :: resTags (some r) [] }
+    -- + the word-level model: dec.setNat (radix conversion into the stale, uncleared buffer) and the word-level rounding
+    { env := env.set! zi z', spec := andSpec (stdSpec env zi (some r) p z.mode) (wSpecSetInt zi z neg M), tags := "setint" :: resTags (some r) [] }
   | _, _ => badStep env "setint"
 
 /-- `z.SetRat(num/den)` (den > 0, fraction in lowest terms as big.Rat keeps it). -/
@@ -205,7 +207,8 @@ def convOp (env : Array Dec) (name xs : String) : Step :=
         | some (n, f, ex) => (some (if n then -(f : Int) else f), accOfTrunc n ex)
       let ws := render want
       { env := env, extra := render (v, a),
-        spec := andSpec (fun _ e _ => if e == ws then none else some s!"int: want {ws} got {e}") fr,
+        spec := andSpec (fun _ e _ => if e == ws then none else some s!"int: want {ws} got {e}")
+          (andSpec (fun _ _ _ => if x.exp ≤ 20000 then wCheckInt x (v.map Int.natAbs) else none) fr),
         tags := ["int"] ++ (if a != 0 then ["inexact"] else []) }
     | "isint" =>
       let want := match Spec.truncSV sv with | none => false | some (_, _, ex) => ex
